@@ -270,10 +270,13 @@ var (
 	geoSubnets = map[string]netip.Prefix{
 		"asn100/4": netip.MustParsePrefix("100.64.10.0/24"),
 		"asn300/6": netip.MustParsePrefix("2001:db8:ff30::/48"),
-		"US/4": netip.MustParsePrefix("100.64.1.0/24"),
-		"DE/4": netip.MustParsePrefix("100.64.2.0/24"),
-		"US/6": netip.MustParsePrefix("2001:db8:ff01::/48"),
-		"JP/6": netip.MustParsePrefix("2001:db8:ff02::/48"),
+		// Neighbours whose prefix lengths are not multiples of eight (the
+		// file-based database keeps such lengths): they differ only inside
+		// one octet.
+		"US/4": netip.MustParsePrefix("100.64.1.0/26"),
+		"DE/4": netip.MustParsePrefix("100.64.1.64/26"),
+		"US/6": netip.MustParsePrefix("2001:db8:ff01:10::/60"),
+		"JP/6": netip.MustParsePrefix("2001:db8:ff01:20::/60"),
 	}
 )
 
